@@ -22,7 +22,11 @@ St0 == [run |-> 0, recv |-> [s \in Steps |-> {}],     \* events handed to s: <<u
         lists |-> {},                                 \* <<step, buf, owner>>
         failed |-> {},                                \* <<step, owner>>: the invocation failed after it got its set (a retry
                                                       \* competes for the buffer again; only a suspended invocation must see it again)
+        nstart |-> 0, nlist |-> 0,                    \* (Tr.equal) executions of the collecting step / lists handed out
         bad |-> "ok"]
+\* Tr.equal: the scenario fills a repeated-type expected list with EQUAL-VALUED events (one uid): events cannot be told apart
+\* by identity, so the clauses count -- every list is as expected, and n arrivals at a one-worker step yield n \div k lists
+Equal == "equal" \in DOMAIN Tr /\ Tr.equal
 
 Floor(a, b) == a \div b
 Expectable(s0, s) ==      \* how many full sets the events handed to s allow
@@ -34,7 +38,14 @@ Expectable(s0, s) ==      \* how many full sets the events handed to s allow
 
 Apply(s, r) ==
   LET s0 == IF r.run # s.run THEN [St0 EXCEPT !.run = r.run] ELSE s IN
-  CASE r.e = "step_start" -> [s0 EXCEPT !.recv[r.step] = @ \cup {<<r.uid, r.ty>>}]
+  CASE r.e = "step_start" -> [s0 EXCEPT !.recv[r.step] = @ \cup {<<r.uid, r.ty>>},
+                                         !.nstart = IF r.step \in DOMAIN Tr.collect THEN @ + 1 ELSE @]
+    [] Equal /\ r.e = "collect_ret" /\ r.got = "list" ->
+         [s0 EXCEPT !.nlist = @ + 1, !.bad = IF r.tys # r.expected THEN "list_not_as_expected" ELSE @]
+    [] Equal /\ r.e = "drained" /\ r.live_run /\ r.open = 0 ->
+         [s0 EXCEPT !.bad = IF \E x \in DOMAIN Tr.collect : s0.nlist < Floor(s0.nstart, Len(Tr.collect[x]))
+                            THEN "full_set_never_returned" ELSE @]
+    [] Equal /\ r.e = "collect_ret" -> s0
     [] r.e = "collect_ret" /\ r.got = "list" ->
          LET us == Set(r.uids)
              clash == \E x \in s0.used : x[1] = r.step /\ x[2] = r.buf /\ x[3] \in us /\ x[4] # r.uid
